@@ -18,8 +18,10 @@ SIZES = {
     "csv": (200, 2500),
     "pyobj": (200, 2500),
     "plist": (150, 2000),
+    "loaded": (250, 3000),
+    "records": (200, 2500),
 }
-DEFAULT_KINDS = ["small", "random", "skewed", "mset", "msetdup", "xml", "huge", "csv", "pyobj", "plist"]
+DEFAULT_KINDS = ["small", "random", "skewed", "mset", "msetdup", "xml", "huge", "csv", "pyobj", "plist", "loaded", "records"]
 
 
 def innermost_class(ev, step):
